@@ -6,6 +6,7 @@ import vlib
 from vlib import Case, hx, unhx
 
 PROP = "C13"
+REAL_ONLY_OPS = ("crc.emit.",)   # ops that run the real emitters only; judged by oracle() against the receiver check
 PROOF_FILES = ["Properties/C13.v"]
 RULE = ("byte strings through ComputeCRC: all strings of length 0..2 (65 793, complete); single-bit strings (one bit set, "
         "rest zero) and all-zero strings; one random string of every length 0..1024; random strings up to 4 KiB and a few up to 64 KiB; known-answer vectors; residue calls; the real emitters (FilterPMTPacketsToPids on generated PMTs of 1..27 streams in 1..3 packets, "
